@@ -6,5 +6,7 @@ import PyIpmi.Props.C10
 #print axioms PyIpmi.Props.C10.write_exact
 #print axioms PyIpmi.Props.C10.write_count_mismatch_raises
 #print axioms PyIpmi.Props.C10.write_short_ack_raises
+#print axioms PyIpmi.Props.C10.write_resumed_exact
+#print axioms PyIpmi.Props.C10.faultless_plan_is_reference_device
 #print axioms PyIpmi.Props.C10.multirecord_as_shipped_misaddresses
 #print axioms PyIpmi.Props.C10.multirecord_as_shipped_wrong_data
